@@ -132,12 +132,14 @@ func (s *qrecv) CancelRead(quicgo.StreamErrorCode) {}
 func (s *qrecv) SetReadDeadline(time.Time) error   { return nil }
 
 // qconn is an in-memory quic.Connection offering exactly what transport/quic uses: one
-// outgoing and one incoming unidirectional stream; datagrams never arrive.
+// outgoing and one incoming unidirectional stream, and a lossy datagram lane in each direction (a datagram is dropped when 4096 are
+// waiting; nothing is reordered).
 type qconn struct {
-	out, in  *pipe
-	ctx      context.Context
-	cancel   context.CancelFunc
-	accepted chan struct{}
+	out, in      *pipe
+	ctx          context.Context
+	cancel       context.CancelFunc
+	accepted     chan struct{}
+	dgOut, dgIn  chan []byte
 }
 
 var _ quicgo.Connection = (*qconn)(nil)
@@ -145,13 +147,14 @@ var _ io.Reader = (*qrecv)(nil)
 
 func newQPair(rchunk int) (*qconn, *qconn) {
 	ab, ba := newPipe(rchunk), newPipe(rchunk)
-	mk := func(out, in *pipe) *qconn {
+	dab, dba := make(chan []byte, 4096), make(chan []byte, 4096)
+	mk := func(out, in *pipe, dgOut, dgIn chan []byte) *qconn {
 		ctx, cancel := context.WithCancel(context.Background())
-		c := &qconn{out: out, in: in, ctx: ctx, cancel: cancel, accepted: make(chan struct{}, 1)}
+		c := &qconn{out: out, in: in, ctx: ctx, cancel: cancel, accepted: make(chan struct{}, 1), dgOut: dgOut, dgIn: dgIn}
 		c.accepted <- struct{}{}
 		return c
 	}
-	return mk(ab, ba), mk(ba, ab)
+	return mk(ab, ba, dab, dba), mk(ba, ab, dba, dab)
 }
 
 var errNotSupported = errors.New("qfake: not supported")
@@ -191,9 +194,17 @@ func (c *qconn) CloseWithError(quicgo.ApplicationErrorCode, string) error {
 }
 func (c *qconn) Context() context.Context                { return c.ctx }
 func (c *qconn) ConnectionState() quicgo.ConnectionState { return quicgo.ConnectionState{} }
-func (c *qconn) SendDatagram([]byte) error               { return errNotSupported }
+func (c *qconn) SendDatagram(p []byte) error {
+	select {
+	case c.dgOut <- append([]byte(nil), p...):
+	default:
+	}
+	return nil
+}
 func (c *qconn) ReceiveDatagram(ctx context.Context) ([]byte, error) {
 	select {
+	case p := <-c.dgIn:
+		return p, nil
 	case <-ctx.Done():
 		return nil, ctx.Err()
 	case <-c.ctx.Done():
